@@ -392,3 +392,140 @@ fn mutate_selection(r: &mut Rng, v: Value, depth: usize) -> Value {
         other => other,
     }
 }
+
+// ---------------------------------------------------------------------------
+// small-scope exhaustive enumeration (complements the random streams: every shape up to a size, not a sample)
+
+/// all JSON values with exactly `n` container/leaf nodes below the root position, drawn from a tiny alphabet;
+/// `n` counts members and elements at every depth
+fn small_values(n: usize, memo: &mut std::collections::HashMap<usize, Vec<Value>>) -> Vec<Value> {
+    if let Some(v) = memo.get(&n) {
+        return v.clone();
+    }
+    let mut out: Vec<Value> = vec![];
+    if n == 0 {
+        out = vec![json!(1), json!("s"), Value::Null, json!([]), json!({})];
+    } else {
+        // an array or an object whose children use up n nodes in total: children sizes c1..ck with sum(ci + 1) = n
+        fn compositions(n: usize, out: &mut Vec<Vec<usize>>, cur: &mut Vec<usize>) {
+            if n == 0 {
+                if !cur.is_empty() {
+                    out.push(cur.clone());
+                }
+                return;
+            }
+            for c in 0..n {
+                cur.push(c);
+                compositions(n - c - 1, out, cur);
+                cur.pop();
+            }
+        }
+        let mut comps = vec![];
+        compositions(n, &mut comps, &mut vec![]);
+        for comp in comps {
+            // cartesian product of the children (only containers and one leaf kind per slot beyond the first to bound the count)
+            let mut kids: Vec<Vec<Value>> = vec![vec![]];
+            for (slot, c) in comp.iter().enumerate() {
+                let mut opts = small_values(*c, memo);
+                if *c == 0 && slot > 0 {
+                    opts.truncate(2);
+                }
+                let mut next = vec![];
+                for k in &kids {
+                    for o in &opts {
+                        let mut k2 = k.clone();
+                        k2.push(o.clone());
+                        next.push(k2);
+                    }
+                }
+                kids = next;
+                if kids.len() > 400 {
+                    kids.truncate(400);
+                }
+            }
+            for k in kids {
+                out.push(Value::Array(k.clone()));
+                let names = ["a", "b", "c", "d"];
+                let mut m = Map::new();
+                for (i, x) in k.into_iter().enumerate() {
+                    m.insert(names[i % 4].to_string() + if i >= 4 { "2" } else { "" }, x);
+                }
+                out.push(Value::Object(m));
+            }
+        }
+    }
+    memo.insert(n, out.clone());
+    out
+}
+
+/// every claims object {"iss","exp", "v": X} for X with at most `max_nodes` nodes
+pub fn small_claims(max_nodes: usize, now: u64) -> Vec<Value> {
+    let mut memo = std::collections::HashMap::new();
+    let mut out = vec![];
+    for n in 0..=max_nodes {
+        for x in small_values(n, &mut memo) {
+            out.push(json!({"iss": "https://issuer.example", "v": x, "exp": now + 100000}));
+        }
+    }
+    out
+}
+
+/// every type-consistent selection for `v` (bounded: a node offers false / true / recurse)
+pub fn all_selections(v: &Value, limit: usize) -> Vec<Value> {
+    fn node_opts(v: &Value, limit: usize) -> Vec<Value> {
+        let mut o = vec![json!(false), json!(true)];
+        match v {
+            Value::Object(_) | Value::Array(_) => o.extend(all_selections(v, limit)),
+            _ => {}
+        }
+        o.truncate(limit);
+        o
+    }
+    let mut acc: Vec<Value> = vec![];
+    match v {
+        Value::Object(m) => {
+            let mut partial: Vec<Map<String, Value>> = vec![Map::new()];
+            for (k, x) in m {
+                let mut next = vec![];
+                for p in &partial {
+                    next.push(p.clone()); // member absent from the selection
+                    for o in node_opts(x, limit) {
+                        let mut q = p.clone();
+                        q.insert(k.clone(), o);
+                        next.push(q);
+                    }
+                    if next.len() > limit {
+                        break;
+                    }
+                }
+                partial = next;
+                partial.truncate(limit);
+            }
+            acc.extend(partial.into_iter().map(Value::Object));
+        }
+        Value::Array(a) => {
+            let mut partial: Vec<Vec<Value>> = vec![vec![]];
+            for x in a {
+                let mut next = vec![];
+                for p in &partial {
+                    for o in node_opts(x, limit) {
+                        let mut q = p.clone();
+                        q.push(o);
+                        next.push(q);
+                    }
+                    if next.len() > limit {
+                        break;
+                    }
+                }
+                // shorter selections are prefixes: keep the previous level's too
+                next.extend(partial.iter().cloned());
+                partial = next;
+                partial.truncate(limit);
+            }
+            acc.extend(partial.into_iter().map(Value::Array));
+        }
+        _ => {}
+    }
+    acc.truncate(limit);
+    acc
+}
